@@ -15,15 +15,19 @@
   * `C07_cms_depth`   : 0 < c < 1 → depth ≥ 1 ∧ 1 − 2^(−depth) ≥ c.  Uses the numeric lemma
                         `c2_le_log_two` (the code's literal is ≤ ln 2), proved in
                         Lemmas/Log2Bound.lean from a 19-term series — no hypothesis left.
-  * `C07_cuckoo`      : 0 < ε, b ≥ 1 → 2b / 2^f ≤ ε;  `C07_cuckoo_error_rate`: the model's
-                        `cuckooErrorRate f b` (what a reload recomputes) is ≤ ε, for ε ≤ 1.
+  * `C07_cuckoo`      : 0 < ε, b ≥ 1 → 2b / 2^f ≤ ε;  `C07_cuckoo_fp_pos`: f ≥ 1 for ε ≤ 1;
+                        `C07_cuckoo_error_rate`: the model's `cuckooErrorRate f b` (what a reload
+                        recomputes) is ≤ ε, for ε ≤ 1.
   * `C07_bloom_bits`, `C07_bloom_bits_textbook`, `C07_bloom_hashes`, `C07_bloom_hashes_pos`,
     `C07_bloom_optimum`: m ≥ 1, m·c1 ≥ −n ln t (also m·ln²2 ≥ −n ln t), |k − c2·m/n| ≤ ½, k ≥ 0,
                         exp(−c1·m/n) ≤ t.
   * `C07_bloomParams_ok`, `C07_bloomParams_ok_iff`, `C07_bloomParams_error`: exactly when
     `_get_optimized_params` succeeds and with what, and the error raised otherwise (for any
     narrowing function).
-  * `C07_bloom_delivered`: whatever `(t, k, m)` `bloomParams` returns satisfies all of the above.
+  * `C07_bloom_delivered`: whatever `(t, k, m)` `bloomParams` returns satisfies all of the above
+                        (needs `narrow p ≤ 1`; `C07_narrow_le_one`: true of every monotone
+                        narrowing that fixes 1).  `C07_bits_hashes_narrow_irrelevant`: bits and
+                        hashes are the same function in every member of the instance family.
   * `C07_stable`, `C07_stable_real`: reload stability (any `RealLike α`; ℝ with any idempotent
     narrowing).
 
@@ -34,6 +38,7 @@
 -/
 import PyProb.Lemmas.RealInst
 import PyProb.Lemmas.Log2Bound
+import PyProb.Lemmas.SizingExamples
 
 namespace PyProb.C07
 open PyProb
@@ -180,5 +185,299 @@ theorem C07_bloom_optimum (n : Nat) (t : ℝ) (hn : 1 ≤ n) (h0 : 0 < t) (h1 : 
   have hnR : (0 : ℝ) < n := by exact_mod_cast hn
   rw [← Real.le_log_iff_exp_le h0, neg_le, le_div_iff₀ hnR]
   nlinarith
+
+/-! ### `_get_optimized_params` as a whole (`bloomParams`), for any narrowing function -/
+
+/-- The hashes/bits do not depend on the narrowing function of the instance. -/
+theorem C07_bits_hashes_narrow_irrelevant (nr : ℝ → ℝ) (n : Nat) (t : ℝ) (m : Int) :
+    @bloomBits ℝ (realLikeWith nr) n t = bloomBits (α := ℝ) n t ∧
+      @bloomHashes ℝ (realLikeWith nr) n m = bloomHashes (α := ℝ) n m :=
+  ⟨rfl, rfl⟩
+
+/-- Success of `bloomParams` characterised exactly: `n ≥ 1`, `0 ≤ p < 1`, the narrowed rate
+    `t = narrow p` is positive, and the rounded hash count is not 0; the result is `(t, k, m)`. -/
+theorem C07_bloomParams_ok_iff (nr : ℝ → ℝ) (n : Int) (p : ℝ) (r : ℝ × Nat × Nat) :
+    @bloomParams ℝ (realLikeWith nr) n p = .ok r ↔
+      1 ≤ n ∧ 0 ≤ p ∧ p < 1 ∧ 0 < nr p ∧
+        bloomHashes (α := ℝ) n.toNat (bloomBits (α := ℝ) n.toNat (nr p)) ≠ 0 ∧
+        r = (nr p,
+             (bloomHashes (α := ℝ) n.toNat (bloomBits (α := ℝ) n.toNat (nr p))).toNat,
+             (bloomBits (α := ℝ) n.toNat (nr p)).toNat) := by
+  rw [bloomParams_real]
+  change (if n ≤ 0 then _ else if ¬(0 ≤ p ∧ p < 1) then _ else if ¬ 0 < nr p then _
+    else if bloomHashes (α := ℝ) n.toNat (bloomBits (α := ℝ) n.toNat (nr p)) = 0 then _
+    else Except.ok (nr p,
+      (bloomHashes (α := ℝ) n.toNat (bloomBits (α := ℝ) n.toNat (nr p))).toNat,
+      (bloomBits (α := ℝ) n.toNat (nr p)).toNat)) = Except.ok r ↔ _
+  constructor
+  · intro h
+    split_ifs at h with h1 h2 h3 h4
+    injection h with h
+    exact ⟨by omega, h2.1, h2.2, h3, h4, h.symm⟩
+  · rintro ⟨h1, h2, h3, h4, h5, rfl⟩
+    rw [if_neg (by omega), if_neg (not_not.mpr ⟨h2, h3⟩), if_neg (not_not.mpr h4), if_neg h5]
+
+/-- The error branches: `InitializationError` for `n ≤ 0` or `p ∉ [0,1)`, `ValueError`
+    (`math.log` of a non-positive number) when the narrowed rate is not positive, and
+    `InitializationError` when the hash count rounds to 0. -/
+theorem C07_bloomParams_error (nr : ℝ → ℝ) (n : Int) (p : ℝ) :
+    ((n ≤ 0 ∨ p < 0 ∨ 1 ≤ p) → @bloomParams ℝ (realLikeWith nr) n p = .error .initError) ∧
+    (1 ≤ n → 0 ≤ p → p < 1 → nr p ≤ 0 →
+        @bloomParams ℝ (realLikeWith nr) n p = .error .valueError) ∧
+    (1 ≤ n → 0 ≤ p → p < 1 → 0 < nr p →
+        bloomHashes (α := ℝ) n.toNat (bloomBits (α := ℝ) n.toNat (nr p)) = 0 →
+        @bloomParams ℝ (realLikeWith nr) n p = .error .initError) := by
+  rw [bloomParams_real]
+  refine ⟨?_, ?_, ?_⟩
+  · intro h
+    by_cases h1 : n ≤ 0
+    · rw [if_pos h1]
+    · rw [if_neg h1, if_pos]
+      rintro ⟨h2, h3⟩
+      rcases h with h | h | h
+      · exact h1 h
+      · linarith
+      · linarith
+  · intro h1 h2 h3 h4
+    rw [if_neg (by omega), if_neg (not_not.mpr ⟨h2, h3⟩), if_pos (not_lt.mpr h4)]
+  · intro h1 h2 h3 h4 h5
+    rw [if_neg (by omega), if_neg (not_not.mpr ⟨h2, h3⟩), if_neg (not_not.mpr h4)]
+    exact if_pos h5
+
+/-- The form used by the constructor with the registered instance (rate already narrowed):
+    for `n ≥ 1` and `0 < t < 1` the call succeeds with `(t, k, m)` exactly when `k ≠ 0`, and
+    raises `InitializationError` when `k = 0`; `k` and `m` are non-negative, so converting them to
+    naturals loses nothing. -/
+theorem C07_bloomParams_ok (n : Int) (t : ℝ) (hn : 1 ≤ n) (h0 : 0 < t) (h1 : t < 1) :
+    let m := bloomBits (α := ℝ) n.toNat t
+    let k := bloomHashes (α := ℝ) n.toNat m
+    bloomParams (α := ℝ) n t =
+        (if k = 0 then .error .initError else .ok (t, k.toNat, m.toNat)) ∧
+      ((k.toNat : Int) = k) ∧ ((m.toNat : Int) = m) ∧ 1 ≤ m := by
+  intro m k
+  have hm := (C07_bloom_bits n.toNat t (by omega) h0 h1).1
+  have hk := C07_bloom_hashes_pos n.toNat m (by omega)
+  refine ⟨?_, Int.toNat_of_nonneg hk, Int.toNat_of_nonneg (by omega), hm⟩
+  have hreal := bloomParams_real id n t
+  simp only [id] at hreal
+  rw [if_neg (by omega), if_neg (not_not.mpr ⟨h0.le, h1⟩), if_neg (not_not.mpr h0)] at hreal
+  exact hreal
+
+/-- Everything the returned triple `(t, k, m)` satisfies (any narrowing function that does not
+    push a rate `< 1` above 1 — true of every monotone rounding, since 1 is a float32):
+    `t` is the narrowed request, `0 < t < 1`, `k ≥ 1`, `m ≥ 1`, `m·c1 ≥ −n ln t`,
+    `|k − c2·m/n| ≤ ½`, and `exp(−c1·m/n) ≤ t`. -/
+theorem C07_bloom_delivered (nr : ℝ → ℝ) (n : Int) (p t : ℝ) (k m : Nat)
+    (hle : nr p ≤ 1)
+    (hok : @bloomParams ℝ (realLikeWith nr) n p = .ok (t, k, m)) :
+    1 ≤ n ∧ t = nr p ∧ 0 < t ∧ t < 1 ∧ 1 ≤ k ∧ 1 ≤ m ∧
+      -(n : ℝ) * Real.log t ≤ (m : ℝ) * c1 ∧
+      |(k : ℝ) - c2 * (m : ℝ) / (n : ℝ)| ≤ 1 / 2 ∧
+      Real.exp (-(c1 * (m : ℝ) / (n : ℝ))) ≤ t := by
+  rw [C07_bloomParams_ok_iff] at hok
+  obtain ⟨hn, hp0, hp1, ht0, hk0, hr⟩ := hok
+  injection hr with ht hr
+  injection hr with hk hm
+  subst ht
+  have hnn : ((n.toNat : Nat) : ℝ) = (n : ℝ) := by
+    have : ((n.toNat : Nat) : Int) = n := Int.toNat_of_nonneg (by omega)
+    exact_mod_cast this
+  -- the narrowed rate cannot be 1: then `m = 0` and `k = 0`
+  have ht1 : nr p < 1 := by
+    rcases lt_or_eq_of_le hle with h | h
+    · exact h
+    · exfalso; apply hk0
+      rw [show bloomBits (α := ℝ) n.toNat (nr p) = _ from bloomBits_real id _ _,
+        show bloomHashes (α := ℝ) n.toNat _ = _ from bloomHashes_real id _ _, h]
+      simp [roundHalfEven]
+  obtain ⟨hm1, hbits⟩ := C07_bloom_bits n.toNat (nr p) (by omega) ht0 ht1
+  have hkpos := C07_bloom_hashes_pos n.toNat (bloomBits (α := ℝ) n.toNat (nr p)) (by omega)
+  have hhash := C07_bloom_hashes n.toNat (bloomBits (α := ℝ) n.toNat (nr p))
+  have hopt := C07_bloom_optimum n.toNat (nr p) (by omega) ht0 ht1
+  have hmc : ((m : Nat) : ℝ) = ((bloomBits (α := ℝ) n.toNat (nr p) : Int) : ℝ) := by
+    have : ((m : Nat) : Int) = bloomBits (α := ℝ) n.toNat (nr p) := by
+      rw [hm]; exact Int.toNat_of_nonneg (by omega)
+    exact_mod_cast this
+  have hkc : ((k : Nat) : ℝ) =
+      ((bloomHashes (α := ℝ) n.toNat (bloomBits (α := ℝ) n.toNat (nr p)) : Int) : ℝ) := by
+    have : ((k : Nat) : Int) = bloomHashes (α := ℝ) n.toNat (bloomBits (α := ℝ) n.toNat (nr p)) := by
+      rw [hk]; exact Int.toNat_of_nonneg hkpos
+    exact_mod_cast this
+  rw [hnn] at hbits hhash hopt
+  refine ⟨hn, rfl, ht0, ht1, ?_, ?_, ?_, ?_, ?_⟩
+  · rw [hk]; omega
+  · rw [hm]; omega
+  · rw [hmc]; exact hbits
+  · rw [hmc, hkc]; exact hhash
+  · rw [hmc]; exact hopt
+
+/-- a monotone narrowing that fixes 1 never lifts a rate `< 1` above 1 -/
+theorem C07_narrow_le_one (nr : ℝ → ℝ) (hmono : Monotone nr) (hone : nr 1 = 1) (p : ℝ)
+    (hp : p < 1) : nr p ≤ 1 := hone ▸ hmono hp.le
+
+/-! ### the rounding allowance (not proved) and the packaged Bloom clause -/
+
+/-- Code-independent real inequality: with `m` bits satisfying `m·c1 ≥ −n ln t` and a hash count
+    `k ≥ 1` within ½ of `c2·m/n`, the textbook false-positive rate `(1 − e^{−kn/m})^k` exceeds `t`
+    by at most 7 %.  (`c1`, `c2` are spelled out as the rational numbers they are.) -/
+def C07_BloomRoundingAllowance : Prop :=
+  ∀ (n m k : Nat) (t : ℝ), 1 ≤ n → 1 ≤ m → 1 ≤ k → 0 < t → t < 1 →
+    -(n : ℝ) * Real.log t ≤ (m : ℝ) * (8655072057804149 / 18014398509481984) →
+    |(k : ℝ) - (6243314768165359 / 9007199254740992) * (m : ℝ) / (n : ℝ)| ≤ 1 / 2 →
+    (1 - Real.exp (-((k : ℝ) * (n : ℝ) / (m : ℝ)))) ^ k ≤ (107 / 100) * t
+
+/-- The Bloom clause of C07 at full strength: whatever geometry `_get_optimized_params` returns,
+    the model's `current_false_positive_rate` formula evaluated at the planned load `n` is at most
+    1.07 × the (narrowed) requested rate. -/
+def C07_bloom_full_statement : Prop :=
+  ∀ (nr : ℝ → ℝ) (n : Int) (p t : ℝ) (k m : Nat), nr p ≤ 1 →
+    @bloomParams ℝ (realLikeWith nr) n p = .ok (t, k, m) →
+    currentFpr (α := ℝ) m k n ≤ (107 / 100) * t
+
+theorem C07_bloom_partial (h : C07_BloomRoundingAllowance) : C07_bloom_full_statement := by
+  intro nr n p t k m hle hok
+  obtain ⟨hn, _, ht0, ht1, hk, hm, hbits, hhash, _⟩ := C07_bloom_delivered nr n p t k m hle hok
+  have hnn : ((n.toNat : Nat) : ℝ) = (n : ℝ) := by
+    have : ((n.toNat : Nat) : Int) = n := Int.toNat_of_nonneg (by omega)
+    exact_mod_cast this
+  rw [c1_eq] at hbits
+  rw [c2_eq] at hhash
+  have key := h n.toNat m k t (by omega) hm hk ht0 ht1 (by rw [hnn]; exact hbits)
+    (by rw [hnn]; exact hhash)
+  rw [show currentFpr (α := ℝ) m k n = _ from currentFpr_real id m k n, Real.rpow_natCast]
+  rw [hnn] at key
+  have : ((((k : Int) * (-1) * n : Int)) : ℝ) / (m : ℝ) = -((k : ℝ) * (n : ℝ) / (m : ℝ)) := by
+    push_cast; ring
+  rw [this]
+  exact key
+
+/-! ### reload stability -/
+
+open RealLike in
+/-- Generic over every instance (in particular `Float`, the executed one): if narrowing is
+    idempotent at `p`, the triple obtained from `p` carries `t = narrow32 p`, and feeding that
+    stored `t` through the same function again (what a reload does) re-derives the same triple —
+    it can only fail the range test on `t`, never return a different geometry. -/
+theorem C07_stable {α : Type} [RealLike α] (n : Int) (p : α) (r : α × Nat × Nat)
+    (hidem : narrow32 (narrow32 p) = narrow32 p)
+    (hok : bloomParams n p = .ok r) :
+    r.1 = narrow32 p ∧
+      ((le (ofInt 0) r.1 && lt r.1 (ofInt 1)) = true → bloomParams n r.1 = .ok r) ∧
+      (∀ r', bloomParams n r.1 = .ok r' → r' = r) := by
+  unfold bloomParams at hok
+  split at hok
+  · cases hok
+  rename_i hn
+  split at hok
+  · cases hok
+  simp only at hok
+  split at hok
+  · cases hok
+  rename_i hpos
+  split at hok
+  · cases hok
+  rename_i hk
+  injection hok with hok
+  subst hok
+  simp only
+  have hre : ∀ (hr : (le (ofInt 0) (narrow32 p) && lt (narrow32 p) (ofInt 1)) = true),
+      bloomParams n (narrow32 p) = .ok (narrow32 p,
+        (bloomHashes (α := α) n.toNat (bloomBits n.toNat (narrow32 p))).toNat,
+        (bloomBits n.toNat (narrow32 p)).toNat) := by
+    intro hr
+    unfold bloomParams
+    rw [if_neg hn, if_neg (by simp [hr])]
+    simp only [hidem]
+    rw [if_neg hpos, if_neg hk]
+  refine ⟨trivial, hre, ?_⟩
+  intro r' h'
+  by_cases hr : (le (ofInt 0) (narrow32 p) && lt (narrow32 p) (ofInt 1)) = true
+  · rw [hre hr] at h'
+    injection h' with h'
+    exact h'.symm
+  · unfold bloomParams at h'
+    rw [if_neg hn, if_pos (by simp [hr])] at h'
+    cases h'
+
+/-- Over ℝ with any narrowing function that is idempotent at `p` and keeps `p < 1` at or below
+    1: the reload succeeds and yields exactly the original `(t, k, m)`. -/
+theorem C07_stable_real (nr : ℝ → ℝ) (n : Int) (p t : ℝ) (k m : Nat)
+    (hidem : nr (nr p) = nr p) (hle : nr p ≤ 1)
+    (hok : @bloomParams ℝ (realLikeWith nr) n p = .ok (t, k, m)) :
+    @bloomParams ℝ (realLikeWith nr) n t = .ok (t, k, m) := by
+  obtain ⟨_, ht, ht0, ht1, _⟩ := C07_bloom_delivered nr n p t k m hle hok
+  have h := (@C07_stable ℝ (realLikeWith nr) n p (t, k, m) hidem hok).2.1
+  apply h
+  simp [ht0.le, ht1]
+
+/-! ### non-vacuity: concrete instances (tests, not theorems)
+
+The numeric evaluations of the model formulas (`cmsDepth_95`, `bloomBits_1_half`,
+`bloomHashes_1_2`) and the sample narrowing `upHalf` are in Lemmas/SizingExamples.lean. -/
+
+/-- TEST. ε = 1 % gives width 200, and `2/200 ≤ 1/100` -/
+example : cmsWidth (α := ℝ) (1 / 100) = 200 ∧ (2 : ℝ) / ((200 : Int) : ℝ) ≤ 1 / 100 := by
+  rw [show cmsWidth (α := ℝ) (1 / 100) = _ from cmsWidth_real id _]
+  norm_num
+
+/-- TEST. confidence 95 % gives depth 5 (`ln 20 / 0.693… ≈ 4.32`), and `1 − 2⁻⁵ ≥ 0.95`
+    as an instance of `C07_cms_depth` -/
+example : cmsDepth (α := ℝ) (95 / 100) = 5 ∧
+    (95 / 100 : ℝ) ≤ 1 - (2 : ℝ) ^ (-(((5 : Int)) : ℝ)) := by
+  have h := (C07_cms_depth (95 / 100) (by norm_num) (by norm_num)).2
+  rw [cmsDepth_95] at h
+  exact ⟨cmsDepth_95, h⟩
+
+/-- TEST. ε = 0.1 %, buckets of 4: 13 fingerprint bits (`log₂ 1000 ≈ 9.97`, + 2 + 1) -/
+example : cuckooFpBits (α := ℝ) (1 / 1000) 4 = 13 := by
+  rw [show cuckooFpBits (α := ℝ) (1 / 1000) 4 = _ from cuckooFpBits_real id _ _]
+  rw [Int.ceil_eq_iff]
+  have h4 : Real.logb 2 ((4 : Nat) : ℝ) = 2 := by
+    rw [show ((4 : Nat) : ℝ) = (2 : ℝ) ^ (2 : ℝ) by norm_num]
+    exact Real.logb_rpow (by norm_num) (by norm_num)
+  have h9 : 9 < Real.logb 2 (1 / (1 / 1000)) := by
+    rw [Real.lt_logb_iff_rpow_lt (by norm_num) (by norm_num)]; norm_num
+  have h10 : Real.logb 2 (1 / (1 / 1000)) ≤ 10 := by
+    rw [Real.logb_le_iff_le_rpow (by norm_num) (by norm_num)]; norm_num
+  rw [h4]; push_cast; constructor <;> linarith
+
+/-- TEST. one element at rate ½: 2 bits, 1 hash -/
+example : bloomParams (α := ℝ) 1 (1 / 2) = .ok (1 / 2, 1, 2) := by
+  have h := (C07_bloomParams_ok 1 (1 / 2) (by norm_num) (by norm_num) (by norm_num)).1
+  simp only [Int.toNat_one, bloomBits_1_half, bloomHashes_1_2] at h
+  simpa using h
+
+/-- TEST. the `number_hashes == 0` rejection is reachable: 10 elements at rate 0.9 -/
+example : bloomParams (α := ℝ) 10 (9 / 10) = .error .initError := by
+  have hm := C07_bloom_bits 10 (9 / 10) (by norm_num) (by norm_num) (by norm_num)
+  have hup : bloomBits (α := ℝ) 10 (9 / 10) ≤ 7 := by
+    rw [show bloomBits (α := ℝ) 10 (9 / 10) = _ from bloomBits_real id _ _, Int.ceil_le]
+    have hl : Real.log (9 / 10) = -Real.log (10 / 9) := by
+      rw [← Real.log_inv]; norm_num
+    have h2 : Real.log (10 / 9) ≤ 10 / 9 - 1 := Real.log_le_sub_one_of_pos (by norm_num)
+    rw [hl, c1_eq, div_le_iff₀ (by norm_num)]; push_cast; linarith
+  have hk : bloomHashes (α := ℝ) 10 (bloomBits (α := ℝ) 10 (9 / 10)) = 0 := by
+    rw [show bloomHashes (α := ℝ) 10 _ = _ from bloomHashes_real id _ _]
+    generalize bloomBits (α := ℝ) 10 (9 / 10) = m at hm hup
+    have h1 : (1 : ℝ) ≤ m := by exact_mod_cast hm.1
+    have h7 : (m : ℝ) ≤ 7 := by exact_mod_cast hup
+    apply roundHalfEven_eq_of_lt_half <;> rw [c2_eq] <;> push_cast
+    · positivity
+    · rw [div_lt_iff₀ (by norm_num)]; linarith
+  have h := (C07_bloomParams_ok 10 (9 / 10) (by norm_num) (by norm_num) (by norm_num)).1
+  simp only [show (10 : Int).toNat = 10 from rfl, hk] at h
+  simpa using h
+
+/-- TEST. With the narrowing `upHalf` (round up to a multiple of ½ — idempotent, monotone, fixes 1,
+    and really moves the rate): requested 0.3 is narrowed to 0.5 and gives `(k, m) = (1, 2)`;
+    reloading with the stored 0.5 gives the same triple, as an instance of `C07_stable_real`. -/
+example : @bloomParams ℝ (realLikeWith upHalf) 1 (3 / 10) = .ok (1 / 2, 1, 2) ∧
+    @bloomParams ℝ (realLikeWith upHalf) 1 (1 / 2) = .ok (1 / 2, 1, 2) := by
+  have h : @bloomParams ℝ (realLikeWith upHalf) 1 (3 / 10) = .ok (1 / 2, 1, 2) := by
+    rw [C07_bloomParams_ok_iff, upHalf_three_tenths, Int.toNat_one, bloomBits_1_half,
+      bloomHashes_1_2]
+    refine ⟨le_refl _, by norm_num, by norm_num, by norm_num, by norm_num, rfl⟩
+  exact ⟨h, C07_stable_real upHalf 1 (3 / 10) (1 / 2) 1 2 (upHalf_idem _)
+    (C07_narrow_le_one upHalf upHalf_monotone upHalf_one _ (by norm_num)) h⟩
 
 end PyProb.C07
